@@ -385,6 +385,19 @@ func (ts *TermStore) bin(op Op, x, y *Term) *Term {
 		if x == y {
 			return ts.Bool(op == OpULe || op == OpSLe)
 		}
+		// zero-extended narrow value against a large constant
+		if (op == OpULt || op == OpULe) && x.op == OpZExt && y.IsConst() && x.args[0].w < 64 {
+			lim := uint64(1) << uint(x.args[0].w)
+			if (op == OpULt && y.cval >= lim) || (op == OpULe && y.cval >= lim-1) {
+				return ts.Bool(true)
+			}
+		}
+		if (op == OpULt || op == OpULe) && y.op == OpZExt && x.IsConst() && y.args[0].w < 64 {
+			lim := uint64(1) << uint(y.args[0].w)
+			if (op == OpULt && x.cval >= lim-1) || (op == OpULe && x.cval >= lim) {
+				return ts.Bool(false)
+			}
+		}
 	case OpAdd:
 		if x.IsConst() && x.cval == 0 {
 			return y
